@@ -53,6 +53,31 @@ theorem ids_increase_fails_at_seq_wrap :
   have := (sorted_cons.1 hs).1 (⟨5, 0⟩, []) (by simp)
   simp [Id.lt_def] at this
 
+/-- The rule the correspondence run checks on every `*` of the real code: outside the wrap situation
+    the generated ID either opens a later millisecond with sequence 0 (the clock reading, or the
+    carry of the repaired generator) or stays on the last millisecond with the next sequence number. -/
+theorem auto_id_rule (q : Quirks) (now : Nat) (s : Code.Stream) (id : Id) (ms sq : Nat)
+    (hw : q.seqCarry = true ∨ wrapsAt now s = false)
+    (h : nextAuto q now s = some (id, ms, sq)) :
+    (s.atomMs < id.ms ∧ id.seq = 0) ∨ (id.ms = s.atomMs ∧ id.seq = s.atomSeq + 1) := by
+  rcases nextAuto_cases q now s with ⟨h1, hn⟩ | ⟨_, _, _, _, hn⟩ | ⟨_, _, _, _, hn⟩ | ⟨h1, h2, hn⟩
+  · rw [hn] at h; simp only [Option.some.injEq, Prod.mk.injEq] at h
+    obtain ⟨rfl, _, _⟩ := h; left; exact ⟨h1, rfl⟩
+  · rw [hn] at h; cases h
+  · rw [hn] at h; simp only [Option.some.injEq, Prod.mk.injEq] at h
+    obtain ⟨rfl, _, _⟩ := h; left; exact ⟨by simp, rfl⟩
+  · rw [hn] at h; simp only [Option.some.injEq, Prod.mk.injEq] at h
+    obtain ⟨rfl, _, _⟩ := h
+    right
+    have hsmall : s.atomSeq + 1 < u64Mod := by
+      rcases h2 with h2 | h2
+      · rcases hw with hw | hw
+        · rw [hw] at h2; cases h2
+        · simp only [wrapsAt, Bool.and_eq_false_iff, decide_eq_false_iff_not] at hw
+          rcases hw with hw | hw <;> omega
+      · exact h2
+    exact ⟨rfl, Nat.mod_eq_of_lt hsmall⟩
+
 /-- With the carry, `*` is refused only when the last ID has no successor among u64 pairs. -/
 theorem auto_refused_only_without_successor (ops : List Op) (now : Nat) (f : Fields)
     (h : (addAuto fixed now f (run fixed ops).st).2 = none) :
